@@ -45,8 +45,14 @@ package scen
 // was started reaches the sender dead or alive is the Go scheduler's choice, so
 // the recipient rule here only asks that the request reached the sender and
 // leaves the state of its context to frt-cp-put-cancelled.
+//
+// pv-store-own ("PutValue has stored the record locally first", c06.go header
+// and checkPutContent): FullRT.PutValue is judged by the same rule; a run puts
+// the key of its previous PutValue again (the same value or another rank), so
+// that a call which relies on the copy an earlier call stored shows.
 
 import (
+	"bytes"
 	"context"
 	"fmt"
 	"time"
@@ -79,7 +85,8 @@ func init() {
 			"probe_recipient_failed_while_others_inflight", "probe_addrs_changed_with_event", "probe_addrs_changed_silently", "probe_provide_after_addr_change",
 			"fault_rpc_error", "fault_invalid_record", "fault_wrong_key_record", "probe_fullrt_search_completed", "probe_fullrt_search_no_value", "probe_fullrt_best_changed",
 			"probe_fullrt_corrective_put_sent", "probe_fullrt_corrective_none_needed", "probe_fullrt_holder_of_best_in_R", "probe_fullrt_get_given_up",
-			"probe_local_value_in_search", "probe_search_via_getvalue", "probe_quorum_not_reached", "probe_caller_released_ctx", "probe_at_return_requests_judged"},
+			"probe_local_value_in_search", "probe_search_via_getvalue", "probe_quorum_not_reached", "probe_caller_released_ctx", "probe_at_return_requests_judged",
+			"probe_put_own_store_judged", "probe_fullrt_put_republish_same_value", "probe_fullrt_put_republish_judged"},
 	})
 }
 
@@ -213,8 +220,12 @@ func runC06FullRT(s *sim.Sim) {
 		return res, op.Done && op.Err == nil && op.Panic == ""
 	}
 
-	nOps := 1 + s.Draw("ops", 2)
+	nOps := 1 + s.Draw("ops", 3)
 	addrChanges := 0
+	// the key and value of the previous PutValue of this run (puts of the same
+	// key again: a republish of the same value, or another rank)
+	var lastPutKey string
+	var lastPutVal []byte
 	for i := 0; i < nOps && !s.Failed(); i++ {
 		if i > 0 && s.Chance("addr-change", 1, 2) {
 			// the host's addresses change between two operations, announced on
@@ -237,10 +248,31 @@ func runC06FullRT(s *sim.Sim) {
 				return
 			}
 		} else if kind == 0 {
-			key := fmt.Sprintf("key-%d", s.Draw("key", 1<<16))
-			val := rankValue(1+s.Draw("rank", 3), time.Time{}, key)
+			var key string
+			var val []byte
+			if lastPutKey != "" {
+				// put the same key again (pv-store-own, see c06.go): the same value
+				// (a republish) or a drawn one
+				switch s.Draw("put-again", 3) {
+				case 1:
+					key, val = lastPutKey, lastPutVal
+				case 2:
+					key = lastPutKey
+				}
+			}
+			if key == "" {
+				key = fmt.Sprintf("key-%d", s.Draw("key", 1<<16))
+			}
+			if val == nil {
+				val = rankValue(1+s.Draw("rank", 3), time.Time{}, key)
+			}
+			lastPutKey, lastPutVal = key, val
 			R0, ok0 := closest(key)
 			prev, hadPrev := w.localRecord(key)
+			republish := hadPrev && bytes.Equal(prev, val)
+			if republish {
+				s.Count("probe_fullrt_put_republish_same_value")
+			}
 			ob := w.runOp(fmt.Sprintf("FullRT.PutValue#%d", i), key, 0, func(ctx context.Context) (any, error) {
 				return nil, frt.PutValue(ctx, key, val)
 			}, nil)
@@ -253,6 +285,9 @@ func runC06FullRT(s *sim.Sim) {
 			w.finishInflight()
 			R1, ok1 := closest(key)
 			msgs, good := w.checkPutContent(ob, key, val)
+			if good && republish && len(msgs) > 0 {
+				s.Count("probe_fullrt_put_republish_judged") // pv-store-own was judged on a republish
+			}
 			if !good || !ok0 || !ok1 || !sameSet(R0, R1) {
 				continue
 			}
